@@ -3,6 +3,7 @@
    VT parser + interpreter vs the short meaning of the command). *)
 From Coq Require Import List NArith ZArith Bool.
 From SNT Require Export Base.Report Base.Outcome Encoder.Decimal Encoder.Utf8 Encoder.Encode Encoder.VT Encoder.Denote Encoder.EncodeStream Encoder.Term.
+From SNT Require Corr.C05bCorr.
 Import ListNotations.
 Local Open Scope N_scope.
 
@@ -21,7 +22,9 @@ Inductive c05_case :=
 | Case (cp : caps) (c : cmd) (oracle : list (rgba * N)) (impl : option (list N))
   (* several commands through ONE encoder object into one output *)
     (* `pre`: bytes already in the output (a complete prefix) before the stream is encoded *)
-| Stream (cp : caps) (pre : list N) (cs : list cmd) (oracle : list (rgba * N)) (impl : option (list N)).
+| Stream (cp : caps) (pre : list N) (cs : list cmd) (oracle : list (rgba * N)) (impl : option (list N))
+  (* a renderer session: C05 composed with C01 (Corr/C05bCorr.v) *)
+| Session (x : C05bCorr.session).
 
 Definition oracle_ok (d : depth) (l : list (rgba * N)) : bool :=
   match d with
@@ -65,6 +68,7 @@ Definition c05_check (k : c05_case) : bool * bool :=
             && same_final_state (vt_ops (pre ++ ib)) (vt_ops pre ++ flat_map (denote pal pal cp) cs)
             && vt_complete (pre ++ ib)
         end )
+  | Session x => C05bCorr.session_check x
   end.
 
 Definition c05_report := report c05_check.
